@@ -53,7 +53,7 @@ def genMap (s : LL) (f : MArg) : Except Err LL :=
           if ((h0 != (PyLen.len new0))) then
             .error .value
           else
-            let new1 := (Fresh.setCallables new0 (List.map (fun it0 => let p0 := it0; let onef0 := p0.1; let x0 := p0.2; (LThunk.app (ToFnId.fid onef0) x0)) (PyIter.iter (List.zip (PyIter.iter f) (PyIter.iter new0.callables)))))
+            let new1 := (Fresh.setCallables new0 (List.map (fun it0 => let p0 := it0; let onef0 := p0.1; let x0 := p0.2; (LThunk.app (ToFnId.fid onef0) x0)) (PyIter.iter (PyZip.zip f new0.callables))))
             (.ok (ToLL.toLL new1))
       else
         let new1 := (Fresh.setCallables new0 (List.map (fun it0 => let x0 := it0; (LThunk.app (ToFnId.fid f) x0)) (PyIter.iter new0.callables)))
